@@ -330,8 +330,9 @@ arrayspec_new = Contract(
 mapspec_new = Contract(
     f"{F}::MapSpec", params={"inputs": SArraySpec, "outputs": SArraySpec}, returns=MapSpecT, trusted=True, pure=True,
     ensures=lambda S, a, r, post: {"fields": (r.inputs.t == a.inputs.t) & (r.outputs.t == a.outputs.t) if S.symbolic else True},
-    note="constructor of the frozen dataclass MapSpec: stores its fields; its __post_init__ checks the axes only, which a "
-         "renaming leaves unchanged",
+    note="constructor of the frozen dataclass MapSpec: stores its fields.  Its __post_init__ validation (no ':' in an "
+         "output, identical output indices, input indices among the output indices) is assumed to pass here: a renaming "
+         "leaves the axes unchanged, and add_axes appends the same named axes to every array of a MapSpec that passed it",
 )
 
 
@@ -370,3 +371,69 @@ def rename_gen(rng, tier):
             if len(set(new_names)) != len(new_names):
                 continue
             yield {"self": m, "renames": ren}
+
+
+# ---- ArraySpec.add_axes / MapSpec.add_axes (C10: add_mapspec_axis appends the new axis to every array it lifts) -------------
+def _dup_axis(S, a):
+    return S.exists(0, S.len(a.axis), lambda q: S.and_(S.not_(S.is_none(a.axis[q])), lambda: S.exists(
+        0, S.len(a.self.axes), lambda p: S.and_(S.not_(S.is_none(a.self.axes[p])),
+                                               lambda: S.eq(S.some(a.self.axes[p]), S.some(a.axis[q]))))))
+
+
+arrayspec_add_axes = Contract(
+    f"{F}::ArraySpec.add_axes", params={"self": ArraySpecT, "axis": Axes}, returns=ArraySpecT, vararg="axis",
+    raises=[("ValueError", _dup_axis)],
+    ensures=lambda S, a, r, post: {
+        "same name": S.eq(r.name, a.self.name),
+        "the new axes are appended after the existing ones, in order": S.and_(
+            S.len(r.axes) == S.len(a.self.axes) + S.len(a.axis),
+            lambda: S.forall(0, S.len(a.self.axes), lambda p: S.eq(r.axes[p], a.self.axes[p])),
+            lambda: S.forall(0, S.len(a.axis), lambda q: S.eq(r.axes[S.len(a.self.axes) + q], a.axis[q]))),
+    },
+)
+ALL += [arrayspec_add_axes]
+
+
+def add_axes_gen(rng, tier):
+    from pipefunc.map._mapspec import ArraySpec
+    for axes in ((), ("i",), ("i", "j"), (None, "j"), ("i", None, "k")):
+        for new in ((), ("n",), ("i",), (None,), ("n", "m"), ("n", "j"), (None, "k"), ("n", None)):
+            yield {"self": ArraySpec("x", axes), "axis": new}
+
+
+def add_axes_call(fn, args):
+    return fn(args["self"], *args["axis"])
+
+
+def _added(S, a, old, new):
+    return S.and_(S.len(new) == S.len(old), lambda: S.forall(0, S.len(old), lambda i: S.and_(
+        S.eq(new[i].name, old[i].name), lambda: S.len(new[i].axes) == S.len(old[i].axes) + S.len(a.axis),
+        lambda: S.forall(0, S.len(old[i].axes), lambda p: S.eq(new[i].axes[p], old[i].axes[p])),
+        lambda: S.forall(0, S.len(a.axis), lambda q: S.eq(new[i].axes[S.len(old[i].axes) + q], a.axis[q])))))
+
+
+def _dup_in(S, a, specs):
+    return S.exists(0, S.len(specs), lambda i: S.exists(0, S.len(a.axis), lambda q: S.and_(
+        S.not_(S.is_none(a.axis[q])), lambda: S.exists(0, S.len(specs[i].axes), lambda p: S.and_(
+            S.not_(S.is_none(specs[i].axes[p])), lambda: S.eq(S.some(specs[i].axes[p]), S.some(a.axis[q])))))))
+
+
+mapspec_add_axes = Contract(
+    f"{F}::MapSpec.add_axes", params={"self": MapSpecT, "axis": Axes}, returns=MapSpecT, vararg="axis",
+    requires=lambda S, a: {
+        # (the MapSpec constructor refuses an output with a ':' axis; add_mapspec_axis only ever adds a named axis)
+        "the new axes are named": S.forall(0, S.len(a.axis), lambda q: S.not_(S.is_none(a.axis[q])))},
+    raises=[("ValueError", lambda S, a: S.or_(_dup_in(S, a, a.self.inputs), lambda: _dup_in(S, a, a.self.outputs)))],
+    ensures=lambda S, a, r, post: {
+        "every input gets the new axes appended": _added(S, a, a.self.inputs, r.inputs),
+        "every output gets the new axes appended": _added(S, a, a.self.outputs, r.outputs),
+    },
+)
+ALL += [mapspec_add_axes]
+
+
+def ms_add_axes_gen(rng, tier):
+    from pipefunc.map._mapspec import MapSpec
+    for sp in ("x[i] -> y[i]", "x[i], z[j] -> y[i, j]", "x[i, :] -> y[i]", "... -> y[k]"):
+        for new in ((), ("n",), ("i",), ("n", "m"), ("j",), (None,)):
+            yield {"self": MapSpec.from_string(sp), "axis": new}
